@@ -18,7 +18,7 @@ WORDS = ["some", "thing", "other", "value", "data", "spec", "url", "id", "x", "i
 
 SCOPE_KINDS = [
     "two-classes", "class-vs-enumeration", "two-enumerations", "type-vs-interface", "class-vs-enumeration-literal",
-    "two-literals", "two-own-properties", "own-vs-inherited-property", "property-vs-method",
+    "two-literals", "two-own-properties", "own-vs-inherited-property", "two-inherited-properties", "property-vs-method",
     "two-constants", "two-functions", "constant-vs-function",
 ]
 
@@ -325,6 +325,22 @@ def planted_specs(draw: Any, kind: Optional[str] = None, control: Optional[bool]
             child.props.append(mmgen.Prop("extra_child_property", mmgen.TRef("prim", "str")))
         parent.props[draw(st.integers(0, len(parent.props) - 1))].name = a
         child.props[draw(st.integers(0, len(child.props) - 1))].name = b
+    elif kind == "two-inherited-properties":
+        # the two members meet only in a common child: neither is declared by the class in which they collide
+        multi = [c for c in spec.classes if len(c.bases) >= 2]
+        if multi:
+            child = draw(st.sampled_from(multi))
+            p1, p2 = spec.cls(child.bases[0]), spec.cls(child.bases[-1])
+        else:
+            p1 = _add_class(spec, "Extra_parent_a", [])
+            p2 = _add_class(spec, "Extra_parent_b", [])
+            _add_class(spec, "Extra_child_of_both", [p1.name, p2.name])
+        if not p1.props:
+            p1.props.append(mmgen.Prop("extra_property_of_a", mmgen.TRef("prim", "str")))
+        if not p2.props:
+            p2.props.append(mmgen.Prop("extra_property_of_b", mmgen.TRef("prim", "str")))
+        p1.props[draw(st.integers(0, len(p1.props) - 1))].name = a
+        p2.props[draw(st.integers(0, len(p2.props) - 1))].name = b
     elif kind == "property-vs-method":
         c = draw(st.sampled_from(spec.classes))
         if not c.props:
